@@ -169,15 +169,20 @@ package graph
 //@     invariant range: -1 <= rangeindex
 //@     invariant notYet: len(others) == 1 && others[0] != nil ==> (forall i int :: 0 <= i && i <= rangeindex ==> s[i] != others[0])
 
+//@ pure func noNil(s Kinds) bool { forall i int :: {:pattern s[i]} 0 <= i && i < len(s) ==> s[i] != nil }
 //@ func (s Kinds) Add(kinds ...Kind) Kinds
 //@   requires kinds.arr != s.arr || s.arr == 0
 //@   ensures own: result.arr == s.arr || fresh(result.arr)
 //@   ensures old: len(result) >= len(s) && (forall i int :: 0 <= i && i < len(s) ==> result[i] == s[i])
+//@   ensures members: noNil(kinds) ==> (forall k Kind :: {:pattern k in set(result)} (k in set(result)) == (k in set(s) || (exists i int :: 0 <= i && i < len(kinds) && kinds[i] == k)))
+//@   ensures nodup: noNil(kinds) && nodup(s) ==> nodup(result)
 //@   loop 0
-//@     invariant range: -1 <= rangeindex
+//@     invariant range: -1 <= rangeindex && rangeindex < len(kinds)
 //@     invariant own: ref.arr == s.arr || fresh(ref.arr)
 //@     invariant inPlace: ref.arr == s.arr ==> ref.off == s.off
 //@     invariant prefix: len(ref) >= len(s) && (forall i int :: 0 <= i && i < len(s) ==> ref[i] == s[i])
+//@     invariant membersSoFar: noNil(kinds) ==> (forall k Kind :: {:pattern k in set(ref)} (k in set(ref)) == (k in set(s) || (exists i int :: 0 <= i && i <= rangeindex && kinds[i] == k)))
+//@     invariant nodupSoFar: noNil(kinds) && nodup(s) ==> nodup(ref)
 
 // ---- PathSegment: size accounting of the path tree (C17) ---------------------------------------------------
 //
@@ -246,3 +251,24 @@ package graph
 //@     invariant sNotYet: sizeCursor == s ==> s.size == old(s.size)
 //@     invariant trunkDone: !s.detached && s.Trunk != nil && sizeCursor != s && sizeCursor != s.Trunk ==> gained(old(s.Trunk.size), sizeAdded, s.Trunk.size)
 //@     invariant below: forall p *PathSegment :: p == nextSegment || ((sizeCursor != nil && (p.depth < sizeCursor.depth || p == sizeCursor) ==> p.size == old(p.size)) && (p.size == old(p.size) || (p.depth <= s.depth && gained(old(p.size), sizeAdded, p.size))))
+
+// ---- Kinds as duplicate-free sequences ---------------------------------------------------------------------
+//
+// Remove works in place on a duplicate-free sequence: the result lives in the receiver's array, no element of it is the
+// removed kind, every other element of the receiver is still there, nothing else is, and it is duplicate-free again.
+// Add (above): the members of the result are exactly those of the receiver and of the arguments, and a duplicate-free
+// receiver gives a duplicate-free result (arguments without nil: ContainsOneOf is only specified for non-nil kinds).
+// The node-level bookkeeping over the three sequences of a Node stays with the bounded harness.
+//@ pure func nodup(s Kinds) bool { forall i int; j int :: {:pattern s[i], s[j]} 0 <= i && i < j && j < len(s) ==> s[i] != s[j] }
+//@ func (s Kinds) Remove(kind Kind) Kinds
+//@   requires nodup(s)
+//@   modifies contents(s)
+//@   ensures inPlace: result.arr == s.arr && result.off == s.off && len(result) <= len(s)
+//@   ensures removed: forall j int :: {:pattern result[j]} 0 <= j && j < len(result) ==> result[j] != kind
+//@   ensures kept: forall i int :: {:pattern old(s[i])} 0 <= i && i < len(s) && old(s[i]) != kind ==> (exists j int :: {:witness i, i - 1} 0 <= j && j < len(result) && result[j] == old(s[i]))
+//@   ensures only: forall j int :: {:pattern result[j]} 0 <= j && j < len(result) ==> (exists i int :: {:witness j, j + 1} 0 <= i && i < len(s) && old(s[i]) == result[j])
+//@   ensures nodup: nodup(result)
+//@   loop 0
+//@     invariant range: -1 <= rangeindex
+//@     invariant same: forall i int :: {:pattern s[i]} 0 <= i && i < len(s) ==> s[i] == old(s[i])
+//@     invariant notYet: forall i int :: {:pattern s[i]} 0 <= i && i <= rangeindex ==> s[i] != kind
